@@ -16,22 +16,28 @@ def plan(tier, seed):
     dj = [{'template': t} for t in ('globals-repeat', 'macro-code', 'mutable-args')]
     famD = dict(name='determinism_no_carried_state', module=H, fn='determinism', jobs=dj, timeout=900, vacuity=1,
                 program_key='template', mutants=[{'name': 'shared_repeat_dict', 'cfg': {'template': 'globals-repeat'}}])
+    # a loader (and the templates it creates) must not modify the search-path list its caller owns, and what was
+    # loaded earlier must not change how later names resolve (C16's loader-history harness, symbolic existence matrix)
+    lj = [{'ext': '.pt', 'dirs': 2, 'getitem': False, 'loads': 2}, {'ext': None, 'dirs': 2, 'getitem': True, 'loads': 2}]
+    famL = dict(name='loader_leaves_caller_inputs_alone', module='checks.hC16', fn='zpt_loads', jobs=lj, timeout=900,
+                vacuity=1, mutants=[{'name': 'shared_search_path', 'cfg': lj[0]}])
     return dict(
         level='model_checking',
         functions=['chameleon.template:BaseTemplateFile.cook_check', 'chameleon.template:BaseTemplate.cook',
                    'chameleon.template:BaseTemplate.render', 'chameleon.zpt.template:PageTemplate.render',
                    'chameleon.zpt.template:Macros.__getitem__', 'chameleon.tal:RepeatDict',
-                   'chameleon.compiler:Compiler.visit_Macro'],
+                   'chameleon.compiler:Compiler.visit_Macro', 'chameleon.zpt.template:PageTemplateFile.__init__',
+                   'chameleon.loader:TemplateLoader.load'],
         bounds=('two threads on one shared file template (first, lazily compiling use; and use after the file changed), '
                 'each doing render() or a macro lookup: every statement-level interleaving of the real cook_check and '
                 'cook for %d symbolic scheduling decisions after thread a has run ahead 0/5/10 (thorough: 0..12) statements (the remainder runs sequentially), mtime()/read() and the '
                 'compile step are stubs that tag each compiled function with the file version; determinism: 3 templates '
                 '(global definitions, repeat state, macro, code block, caller-owned list/dict arguments) rendered twice on '
                 'one instance, on a second instance and after a render with other arguments, for all symbolic '
-                'arguments in range. Outside: byte-code-granularity pre-emption, three threads, loader registry races '
+                'arguments in range; loader: histories of 2 loads over 4 names x xml/text with every existence pattern of the candidate files leave the caller\'s search-path list unchanged and resolve independently of earlier loads. Outside: byte-code-granularity pre-emption, three threads, loader registry races '
                 '(both callers get equivalent templates), "across processes" (id()-derived identifiers cannot be given '
                 'to the solver).' % k),
         assumptions=['statement-granular interleaving (CPython may switch inside a statement)',
                      'compile step stubbed by a version-tagged function table: the subject is the publish protocol'],
-        families=[famT, famD],
+        families=[famT, famD, famL],
     )
